@@ -24,7 +24,8 @@ def op_results(lines):
 
 
 def report(ctx, violations, kind, what, script_lines, impl_lines, model_lines, extra="", nofail=False, signature=None, maxn=4):
-    if len(violations) >= maxn:
+    # at most maxn reports per signature: reports of one kind (a known finding, say) must not crowd out another kind
+    if sum(1 for v in violations if v.get("signature") == (signature or kind)) >= maxn:
         return
     body = "property %s — %s\n%s\n\n--- script (feed to the harness / driver) ---\n=== replay %s\n%s\n\n--- implementation ---\n%s\n\n--- model ---\n%s\n%s" % (
         ctx.pid, kind, what, {"C20": "values", "C04": "net", "C09": "net"}.get(ctx.pid, "codec"), "\n".join(script_lines), "\n".join(impl_lines), "\n".join(model_lines), extra)
